@@ -207,3 +207,42 @@ Proof.
     - rewrite d11_handle_some. discriminate. }
   rewrite d11_files_false in E. discriminate E.
 Qed.
+
+(* ---------- several neighbours: the decision does not depend on the order in which their answers arrive ---------- *)
+From Coq Require Import Permutation.
+
+Lemma forallb_permutation {A} (f : A -> bool) (l l' : list A) : Permutation l l' -> forallb f l = forallb f l'.
+Proof.
+  intro P. induction P; cbn; try reflexivity.
+  - rewrite IHP. reflexivity.
+  - destruct (f x), (f y); reflexivity.
+  - congruence.
+Qed.
+
+Theorem answer_order_irrelevant w x o l l' :
+  Permutation l l' ->
+  cleanup_deletes w (mkW (x_core x) (x_dir x) (x_own x) (NbSeq l) (x_next x) (x_ckpts x) (x_pending x) (x_flush x) (x_flushq x) (x_comp x) (x_compq x) (x_cktasks x) (x_objs x) (x_state x)) o =
+  cleanup_deletes w (mkW (x_core x) (x_dir x) (x_own x) (NbSeq l') (x_next x) (x_ckpts x) (x_pending x) (x_flush x) (x_flushq x) (x_comp x) (x_compq x) (x_cktasks x) (x_objs x) (x_state x)) o.
+Proof.
+  intro P. unfold cleanup_deletes. cbn [x_own x_nb]. destruct (o_fromdoc o); [|reflexivity].
+  destruct (x_own x); [reflexivity|]. apply forallb_permutation. exact P.
+Qed.
+
+(* any claim, any failure and any answer that never comes among the neighbours' answers keeps the file, wherever it stands *)
+Theorem any_claim_or_failure_keeps w x o lo hi l a :
+  o_fromdoc o = true -> x_own x = OwnRange lo hi -> x_nb x = NbSeq l -> In a l ->
+  (a = AClaim \/ a = AErr \/ a = ANever) -> cleanup_deletes w x o = false.
+Proof.
+  intros F O N Ha K. unfold cleanup_deletes. rewrite F, O, N. cbn [negb].
+  destruct (forallb (ans_clean w (o_name o)) l) eqn:E; [|reflexivity].
+  rewrite forallb_forall in E. specialize (E a Ha). destruct K as [K|[K|K]]; subst a; discriminate E.
+Qed.
+
+(* and the file goes only when every answer was a clean "not needed" *)
+Theorem deletes_only_when_all_clean w x o lo hi l :
+  o_fromdoc o = true -> x_own x = OwnRange lo hi -> x_nb x = NbSeq l ->
+  cleanup_deletes w x o = true -> forall a, In a l -> ans_clean w (o_name o) a = true.
+Proof.
+  intros F O N D a Ha. unfold cleanup_deletes in D. rewrite F, O, N in D. cbn [negb] in D.
+  rewrite forallb_forall in D. apply D. exact Ha.
+Qed.
